@@ -163,6 +163,37 @@ func (d c12AnyData) Process() (string, error) {
 
 type c12Any = nodes.Struct[string, c12AnyData]
 
+// input names outside ASCII (Go identifiers may use any Unicode letter): Latin-1, Greek, Cyrillic
+type c12UniData struct {
+	Ärger nodes.NodeOutput[float64]
+	Größe []nodes.NodeOutput[float64]
+	Öl    []nodes.NodeOutput[float64]
+	Δx    []nodes.NodeOutput[float64]
+	Жук   nodes.NodeOutput[float64]
+}
+
+func (d c12UniData) Process() (float64, error) {
+	s := 0.0
+	if d.Ärger != nil {
+		s += d.Ärger.Value()
+	}
+	if d.Жук != nil {
+		s += 2 * d.Жук.Value()
+	}
+	for i, v := range d.Größe {
+		s += float64(3*(i+1)) * v.Value()
+	}
+	for i, v := range d.Öl {
+		s += float64(5*(i+1)) * v.Value()
+	}
+	for i, v := range d.Δx {
+		s += float64(7*(i+1)) * v.Value()
+	}
+	return s, nil
+}
+
+type c12Uni = nodes.Struct[float64, c12UniData]
+
 type c12TextData struct {
 	Title nodes.NodeOutput[string]
 	Parts []nodes.NodeOutput[string]
@@ -192,6 +223,7 @@ var (
 	c12MixT  = refutil.GetTypeWithPackage(new(c12Mix))
 	c12TextT = refutil.GetTypeWithPackage(new(c12Text))
 	c12AnyT  = refutil.GetTypeWithPackage(new(c12Any))
+	c12UniT  = refutil.GetTypeWithPackage(new(c12Uni))
 )
 
 func init() {
@@ -202,6 +234,7 @@ func init() {
 	refutil.RegisterType[c12Mix](f)
 	refutil.RegisterType[c12Text](f)
 	refutil.RegisterType[c12Any](f)
+	refutil.RegisterType[c12Uni](f)
 	generator.RegisterTypes(f)
 }
 
@@ -704,7 +737,7 @@ func (g *c12Gen) afterEdit() {
 }
 
 var c12ParamPool = []string{c12Float, c12Float, c12Float, c12String, c12String, c12Int, c12Bool, c12V3, c12V2, c12V3Arr, c12AABB, c12Color, c12File}
-var c12StructPool = []string{c12SumT, c12SumT, c12MixT, c12TextT, c12TextT, c12RepoTx, c12AnyT}
+var c12StructPool = []string{c12SumT, c12SumT, c12MixT, c12TextT, c12TextT, c12RepoTx, c12AnyT, c12UniT}
 
 func (g *c12Gen) use(ty string) {
 	if !g.used[ty] {
@@ -1612,6 +1645,32 @@ func c12Less(c *Ctx) {
 		c.Emit("c12.less", hs(a)+" "+hs(b), B(c12DependencyNameLess(a, b)))
 		c.Emit("c12.atoi", hs(a), c12Atoi(a))
 	}
+	// names over the non-ASCII alphabet the model covers (Latin-1 letters, Greek without final sigma, Cyrillic)
+	uni := []rune("aAzZ.019ÀàÄäÖöÜüßÞþÿ×÷ΑαΔδΣσΩωАаЯяЖжЀѐЏџ")
+	ru := func() string {
+		n := r.Intn(6)
+		b := make([]rune, n)
+		for i := range b {
+			b[i] = uni[r.Intn(len(uni))]
+		}
+		return string(b)
+	}
+	uniFixed := []string{"Ärger", "ärger", "ÄRGER", "Größe.2", "GRÖßE.10", "größe.9", "Öl.1", "öl.1", "Δx.3", "δx.12", "ΔX.2", "Жук", "жук", "ЖУК", "ßa.1", "Ärger.1", "Þ", "þ.2", "Σ.1", "σ.1", "Ѐ.1", "ѐ.2", "×.1", "÷"}
+	for _, a := range uniFixed {
+		for _, b := range uniFixed {
+			c.Emit("c12.less", hs(a)+" "+hs(b), B(c12DependencyNameLess(a, b)))
+		}
+	}
+	for i := 0; i < n/2; i++ {
+		a, b := ru(), ru()
+		if r.Intn(3) == 0 {
+			p := []string{"Größe", "Δx", "Öl", "Ж"}[r.Intn(4)]
+			q := []string{p, strings.ToUpper(p), strings.ToLower(p)}[r.Intn(3)]
+			a, b = p+"."+strconv.Itoa(r.Intn(130)), q+"."+strconv.Itoa(r.Intn(130))
+		}
+		c.Emit("c12.less", hs(a)+" "+hs(b), B(c12DependencyNameLess(a, b)))
+	}
+	c.Note("less.non-ascii-names")
 	// the names the code generates: fmt.Sprintf("%s.%d")
 	for _, i := range []int{0, 1, 9, 10, 11, 99, 100, 101, 12345, 1 << 40, 1<<63 - 1} {
 		c.Emit("c12.arrname", hs("Values")+" "+strconv.Itoa(i), hs(fmt.Sprintf("%s.%d", "Values", i)))
